@@ -1,8 +1,8 @@
 #!/bin/sh
-# usage: tools/benign_all.sh [workspace-name]  -- every behaviour-preserving patch under /verif/benign against EVERY quick
+# usage: tools/benign_all.sh [workspace-name] [group glob]  -- every behaviour-preserving patch under /verif/benign against EVERY quick
 # check, in a scratch worktree (never /repo). Prints only the lines that are not `exit=0`: any such line is a false alarm.
 WS="${1:-benign}"
-for P in /verif/benign/*/patch*.diff; do
+for P in /verif/benign/${2:-*}/patch*.diff; do
     echo "== $P"
     /verif/tools/scratch_check.sh "$WS" "$P" ALL | grep -v "exit=0"
 done
